@@ -1,7 +1,8 @@
 """C18 — character-set conversion of names is correct and bounded."""
-from lib.core import Engine, Case
+from lib.core import Engine, Case, split_cases, OUT, LEAN, BuildError
 from lib import extract
-import re
+from concurrent.futures import ThreadPoolExecutor
+import os, re, subprocess, tempfile
 
 PROP = 'C18'
 PROPS_MODULES = ['LA.Props.C18']
@@ -252,6 +253,63 @@ class Uni(Engine):
     name = 'uni'
     repo_deps = ('libarchive/archive_string.c', 'libarchive/archive_string_composition.h')
     timeout = 1500
+
+    # ---- running: the harness forks one child per case and LSan scans the whole heap (all input
+    # lines included) at each child's exit, so large runs go through several harness processes ----
+    CHUNK = 250
+    JOBS = 8
+
+    def _chunks(self, cases):
+        return [cases[i:i + self.CHUNK] for i in range(0, len(cases), self.CHUNK)]
+
+    def run_impl(self, exe, cases):
+        if len(cases) <= self.CHUNK:
+            return super().run_impl(exe, cases)
+        env = dict(os.environ)
+        env.setdefault('ASAN_OPTIONS', 'detect_leaks=1:abort_on_error=0:exitcode=99:allocator_may_return_null=1')
+        env.setdefault('UBSAN_OPTIONS', 'print_stacktrace=1:halt_on_error=1')
+        env['LC_ALL'] = env['LANG'] = 'C.UTF-8'
+        os.makedirs(OUT, exist_ok=True)
+
+        def one(chunk):
+            text = ''.join(f'#case {i}\n' + ''.join(o + '\n' for o in c.ops) for i, c in enumerate(chunk))
+            with tempfile.TemporaryFile(mode='w+', dir=OUT) as eh:
+                r = subprocess.run([exe], input=text, stdout=subprocess.PIPE, stderr=eh, text=True, env=env,
+                                   timeout=self.timeout, errors='replace')
+                eh.seek(0)
+                return split_cases(r.stdout, len(chunk)), eh.read()[-4000:]
+        out, errs = [], []
+        with ThreadPoolExecutor(self.JOBS) as ex:
+            for o, e in ex.map(one, self._chunks(cases)):
+                out += o
+                errs.append(e)
+        return out, ''.join(errs)[-8000:]
+
+    def run_model(self, cases, impl):
+        if len(cases) <= self.CHUNK:
+            return super().run_model(cases, impl)
+        drv = os.path.join(LEAN, '.lake', 'build', 'bin', 'driver')
+
+        def one(args):
+            chunk, im = args
+            lines = []
+            for i, c in enumerate(chunk):
+                lines.append(f'#case {i}')
+                obs = im[i] if i < len(im) else []
+                for j, o in enumerate(c.ops):
+                    lines.append(o + '\t' + (obs[j] if j < len(obs) else ''))
+            r = subprocess.run([drv, self.name], input='\n'.join(lines) + '\n', stdout=subprocess.PIPE,
+                               stderr=subprocess.PIPE, text=True, timeout=self.timeout)
+            if r.returncode != 0:
+                raise BuildError('model driver failed: ' + r.stderr[-2000:])
+            return split_cases(r.stdout, len(chunk))
+        out = []
+        ch = self._chunks(cases)
+        ich = self._chunks(impl)
+        with ThreadPoolExecutor(self.JOBS) as ex:
+            for o in ex.map(one, zip(ch, ich)):
+                out += o
+        return out
 
     # ---- generators ---------------------------------------------------------
     def gen(self, rng, tier):
